@@ -73,7 +73,7 @@ def gen_consts(rng, names, n):
         kind = rng.choice(["i32", "u32", "f32", "bool", "i32_inferred", "f32_inferred", "u32_expr", "i32_expr",
                            "ref", "f64", "i64", "u64", "vec", "array", "f32_extreme", "i32_extreme", "neg_zero",
                            "f32_expr", "bool_expr", "zero_scalar", "zero_vec", "neg_zero_expr", "splat",
-                           "alias_typed", "alias_zero", "int_round", "alias_vec", "near_math_const", "near_math_const"])
+                           "alias_typed", "alias_zero", "int_round", "alias_vec", "near_math_const", "near_math_const", "hex_expr"])
         if kind == "i32":
             v = rng.choice([0, 1, -1, 7, -12345, 2147483647, rng.randint(-10 ** 6, 10 ** 6)])
             lines.append("const %s: i32 = %d;" % (name, v))
@@ -147,6 +147,19 @@ def gen_consts(rng, names, n):
             v = rng.choice([0.25, 2.5, 100.0, 0.3])
             lines.append("const %s = %r;" % (name, v))
             truth.append((name, "PF32", "(LF32 %d%%N)" % f32_bits(v)))
+        elif kind == "hex_expr":
+            # integer constants written in hexadecimal, alone and as the FIRST operand of a constant expression: the exported
+            # value is the value of the whole expression
+            a, b_ = rng.choice([(0x0F, 0xF0), (0x10, 0x01), (0xFF, 0x100), (0x7F, 0x80), (0x1, 0xFFFE)])
+            form = rng.randrange(4)
+            if form == 0:
+                lines.append("const %s = 0x%Xu | 0x%Xu;" % (name, a, b_)); truth.append((name, "PU32", "(LU32 %d%%N)" % (a | b_)))
+            elif form == 1:
+                lines.append("const %s: u32 = 0x%Xu + %du;" % (name, a, b_)); truth.append((name, "PU32", "(LU32 %d%%N)" % (a + b_)))
+            elif form == 2:
+                lines.append("const %s: i32 = 0x%X * 3 - 1;" % (name, a)); truth.append((name, "PI32", "(LI32 (%d)%%Z)" % (a * 3 - 1)))
+            else:
+                lines.append("const %s: u32 = 0x%Xu;" % (name, b_)); truth.append((name, "PU32", "(LU32 %d%%N)" % b_))
         elif kind == "near_math_const":
             # values within a few ulps of the well-known math constants (and the constants themselves): the exported value
             # is the value written in the shader, whatever it is close to
